@@ -1,9 +1,9 @@
 package harness
 
 import (
-	"strings"
-	"github.com/bartossh/Computantis/src/transaction"
 	"fmt"
+	"github.com/bartossh/Computantis/src/transaction"
+	"strings"
 
 	"verif.local/simrt"
 )
@@ -50,9 +50,13 @@ func ledgerScenario(w *World, p *Plan, rec *Record) {
 		w.finalProbes(snaps)
 	}
 	for _, n := range w.Nodes {
+		if n.Log != nil && n.Log.Truncs > 0 {
+			w.Probes["c07-weight-triggered-truncation-finished"] += int64(n.Log.Truncs)
+		}
 		if n.Log != nil && len(n.Log.Fatals) > 0 {
 			w.note("n%d would have crashed: %s", n.Idx, n.Log.Fatals[0])
 			w.probe("node-fatal-log")
+			w.violate("C08", "fatal", "background-loop-terminates-node", n.Idx, "%s", shortErr(n.Log.Fatals[0]))
 		}
 	}
 	rec.Nontrivial = w.Probes["c01-confirmed-transfer-checked"] > 0
@@ -107,6 +111,18 @@ func (w *World) finalProbes(snaps map[int]*Snap) {
 		}
 		if moved {
 			w.probe("c06-cross-node-not-judged-ledger-moving")
+			continue
+		}
+		tainted := false
+		for _, idx := range g {
+			if st := w.nstate(idx); len(st.tainted) > 0 || len(st.gross) > 0 {
+				tainted = true
+			}
+		}
+		if tainted {
+			// a clamped checkpoint depends on where each node happened to cut (known finding, reported
+			// by C01/C02/C07 under its own cause); equal vertex sets then no longer imply equal answers
+			w.probe("c06-cross-node-not-judged-checkpoint-tainted")
 			continue
 		}
 		w.probe("c06-cross-node-groups")
